@@ -1134,8 +1134,14 @@ func (c *Ctx) runInPlace(rule string, pkgShort string, p *packages.Package) {
 					}
 					addr = fa.X // t[i].Z = ...
 				}
-				ia, ok := addr.(*ssa.IndexAddr)
-				if !ok || !faceElemType(ia.X.Type()) || !meshMember(ia.X, 0) {
+				// t[i] = c (an element) or *t = face (the whole face at once)
+				var facePtr ssa.Value
+				if ia, ok := addr.(*ssa.IndexAddr); ok && faceElemType(ia.X.Type()) && meshMember(ia.X, 0) {
+					facePtr = ia.X
+				} else if faceElemType(st.Addr.Type()) && meshMember(st.Addr, 0) {
+					facePtr = st.Addr
+				}
+				if facePtr == nil {
 					continue
 				}
 				n++
@@ -1154,7 +1160,7 @@ func (c *Ctx) runInPlace(rule string, pkgShort string, p *packages.Package) {
 							continue
 						}
 						for _, a := range call.Call.Args {
-							if a != ia.X {
+							if a != facePtr {
 								continue
 							}
 							if callsNamed(call, "Remove") && instrDominates(call, st) {
